@@ -103,3 +103,38 @@ class SeriesStubs:
         if derivatives:
             return coefs, dcoefs
         return coefs
+
+
+class FunctionCapture:
+    """While active, `casadi.Function(name, ins, outs, ...)` records (name, ins, outs) before building; a build that
+    fails because cut / stub symbols are free returns None instead of raising (the recording is what the harness uses).
+    No source change: the library looks `ca.Function` up at call time."""
+
+    def __init__(self):
+        self.calls = []
+
+    def __enter__(self):
+        import casadi
+        self._orig = casadi.Function
+        cap = self
+
+        def Function(name, *a, **k):
+            if len(a) >= 2 and isinstance(a[0], (list, tuple)) and isinstance(a[1], (list, tuple)):
+                cap.calls.append((name, list(a[0]), list(a[1]), list(a[2]) if len(a) > 2 and isinstance(a[2], (list, tuple)) else None))
+            try:
+                return cap._orig(name, *a, **k)
+            except RuntimeError:
+                return None
+        casadi.Function = Function
+        return self
+
+    def __exit__(self, *a):
+        import casadi
+        casadi.Function = self._orig
+        return False
+
+    def last(self, name):
+        for n, i, o, names in reversed(self.calls):
+            if n == name:
+                return i, o, names
+        raise KeyError(name)
